@@ -743,7 +743,7 @@ func c07RunRaceProg(p c07RaceProg, serial bool) c07RaceRun {
 		}
 		for i := 0; i < 40; i++ {
 			w.opIdx = p.Ops + i // family "fail": texts of their own, the program's texts stay unprepared
-			op(w, hw)
+			c07Guard(func() string { return op(w, hw) })
 		}
 	}
 	// ONE shared handle per operation index (all goroutines use handles[i] for their i-th operation), derived before the
